@@ -1,15 +1,15 @@
 SPECIFICATION SpecD
 CONSTANTS
  Writers = {"w1", "w2"}
- OpsPerWriter = 1
+ OpsPerWriter = 2
  Readers = {"r"}
  ReaderOps = 1
  Cap = 2
  MaxBatch = 2
- MaxFaults = 0
- MaxToggles = 0
- DoClose = TRUE
- ReleaseThrottle = FALSE
- Deviations = {"DrainChecksQueueLenFirst"}
+ MaxFaults = 1
+ MaxToggles = 2
+ DoClose = FALSE
+ ReleaseThrottle = TRUE
+ Deviations = {}
 INVARIANT Safety
 CHECK_DEADLOCK TRUE
